@@ -1,5 +1,6 @@
 """C04 - every reported location is the exact 1-based line / code-point column."""
 from . import line_rules as lr, matcher_rules as mr, builder_rules as br, error_rules as er, dialect_rules as dr
+from . import misc_rules as ms
 
 META = {
     "level": "other",
@@ -26,3 +27,5 @@ def run(rep):
     er.rule_error_locations(rep, "C04.err")
     dr.rule_header(rep, "C04.langerr")
     br.rule_rect(rep, "C04.raggederr")
+    # no hidden state: what the property promises for one use must hold for every later use as well
+    ms.rule_stateless(rep, "C04")
